@@ -15,22 +15,33 @@ def _sel_real(A, idx):
 
 
 def make_specs():
+    """Sum specs are written over the *sample-absolute* index T (flat index nc*T + c), so that a streamed block at
+    sample offset B contributes terms f(..., B + t): linear in the summation bounds, products only inside the
+    one-step unfoldings."""
     specs = {}
-    # ssum(A, base, stride, n) = sum_{k<n} A[base + stride*k]
+    # ssum(A, base, stride, n) = sum_{k<n} A[base + stride*k]            (generic strided sum; np.sum model)
     specs["ssum"] = SpecFn("ssum", None, REAL,
                            lambda eng, st, r: _sel_real(r[0], r[1] + r[2] * (r[3] - 1)),
                            "strided sum of a flat array")
-    # dsum(A, i0, D, doff, nc, n) = sum_{c<n} A[i0 + nc*D[doff+c] + c]   (delay-shifted channel sum)
+    # rsum(A, nc, T, n) = sum_{c<n} A[nc*T + c]                          (channels of sample T)
+    specs["rsum"] = SpecFn("rsum", None, REAL,
+                           lambda eng, st, r: _sel_real(r[0], r[1] * r[2] + (r[3] - 1)), "row (sample) sum")
+    # colsum(A, nc, c, T0, n) = sum_{t<n} A[nc*(T0+t) + c]                (samples T0..T0+n of channel c)
+    specs["colsum"] = SpecFn("colsum", None, REAL,
+                             lambda eng, st, r: _sel_real(r[0], r[1] * (r[3] + r[4] - 1) + r[2]), "column sum")
+    # dsum(A, nc, T, D, n) = sum_{c<n} A[nc*(T + D[c]) + c]               (delay-shifted channel sum)
     specs["dsum"] = SpecFn("dsum", None, REAL,
-                           lambda eng, st, r: _sel_real(r[0], r[1] + r[4] * z3.Select(r[2], smt.som(r[3] + r[5] - 1))
-                                                        + (r[5] - 1)),
+                           lambda eng, st, r: _sel_real(r[0], r[1] * (r[2] + z3.Select(r[3], smt.som(r[4] - 1)))
+                                                        + (r[4] - 1)),
                            "sum over channels of delay-shifted samples")
-    # dsel(A, i0, D, doff, nc, S, soff, s, n) = sum_{c<n, S[soff+c]==s} A[i0 + nc*D[doff+c] + c]
+    # dsel(A, nc, T, D, S, s, n) = sum_{c<n, S[c]==s} A[nc*(T + D[c]) + c]
     specs["dsel"] = SpecFn("dsel", None, REAL,
-                           lambda eng, st, r: z3.If(z3.Select(r[5], smt.som(r[6] + r[8] - 1)) == r[7],
-                                                    _sel_real(r[0], r[1] + r[4] * z3.Select(r[2], smt.som(r[3] + r[8] - 1))
-                                                              + (r[8] - 1)), z3.RealVal(0)),
+                           lambda eng, st, r: z3.If(z3.Select(r[4], smt.som(r[6] - 1)) == r[5],
+                                                    _sel_real(r[0], r[1] * (r[2] + z3.Select(r[3], smt.som(r[6] - 1)))
+                                                              + (r[6] - 1)), z3.RealVal(0)),
                            "sum over the channels of one sub-band of delay-shifted samples")
+    from pvc.iomodel import ghost_specs
+    specs.update(ghost_specs())
 
     # ssum2(A, base, s1, n2, n1) = sum_{a<n1} ssum(A, base + s1*a, 1, n2)
     def unfold2(eng, st, r):
@@ -39,7 +50,5 @@ def make_specs():
         inner = specs["ssum"].apply(eng, st, [VOpaqueArr(r[0]), VInt(smt.som(r[1] + r[2] * (r[4] - 1))), VInt(1),
                                               VInt(r[3])])
         return inner.t
-    from pvc.iomodel import ghost_specs
-    specs.update(ghost_specs())
     specs["ssum2"] = SpecFn("ssum2", None, REAL, unfold2, "block sum over n1 rows of n2 contiguous elements")
     return specs
